@@ -256,7 +256,8 @@ class Model(object):
         if not os.environ.get("VERIF_NO_DESUGAR"):
             for q, fi in self.funcs.items():
                 if any(isinstance(n, (ast.ListComp, ast.IfExp,
-                                      ast.GeneratorExp))
+                                      ast.GeneratorExp)) or
+                       (isinstance(n, ast.Attribute) and n.attr == "extend")
                        for n in ast.walk(fi.node)):
                     self.desugared += desugar.desugar_function(fi.node)
         for q, fi in self.funcs.items():
